@@ -476,3 +476,73 @@ Proof.
   destruct (render pipe root m) as [r m' | id' m' | e]; cbn [leaf_target] in H; inversion H; subst.
   destruct HM as [H1 [H2 H3]]. unfold handled. rewrite H1, H2, HU. reflexivity.
 Qed.
+
+(* ------------------------------------------------------------------ needs_blockwise_assembly / add_observation use the same lookup *)
+Lemma locate_inner_map : forall (l : dict node),
+  (fix mp (l : dict node) : dict (msg -> leaf) :=
+     match l with [] => [] | (k, c) :: tl => (k, locate c) :: mp tl end) l = dict_map locate l.
+Proof. intro l. induction l as [|[k c] l IH]; [reflexivity|]. cbn [dict_map]. rewrite <- IH. reflexivity. Qed.
+Lemma locate_step : forall rs ss m,
+  locate (NSite rs ss) m =
+  match dict_get_opt rs (uri_path m) with
+  | Some r => LeafRes r (strip m [])
+  | None => match scan ss (uri_path m) (List.length (uri_path m) - 1) with
+            | Some (c, rest) => locate c (strip m rest)
+            | None => LeafExn KeyError
+            end
+  end.
+Proof.
+  intros rs ss m. cbn [locate]. rewrite locate_inner_map, find_child_eq. unfold find_child_spec. cbn [resources subsites].
+  destruct (dict_get_opt rs (uri_path m)); [reflexivity|].
+  rewrite scan_map. destruct (scan ss (uri_path m) (List.length (uri_path m) - 1)) as [[c rest]|]; reflexivity.
+Qed.
+Lemma render_step_plain : forall rs ss m,
+  render false (NSite rs ss) m =
+  match dict_get_opt rs (uri_path m) with
+  | Some r => LeafRes r (strip m [])
+  | None => match scan ss (uri_path m) (List.length (uri_path m) - 1) with
+            | Some (c, rest) => render false c (strip m rest)
+            | None => LeafExn NotFound
+            end
+  end.
+Proof.
+  intros rs ss m. rewrite render_site. rewrite find_child_eq. unfold find_child_spec. cbn [resources subsites].
+  destruct (dict_get_opt rs (uri_path m)); [reflexivity|].
+  rewrite scan_map. destruct (scan ss (uri_path m) (List.length (uri_path m) - 1)) as [[c rest]|]; reflexivity.
+Qed.
+(* the child asked by needs_blockwise_assembly / add_observation, and the message it is asked with, are exactly those of render;
+   where render answers 4.04 they take their default *)
+Lemma locate_render : forall n m,
+  locate n m = match render false n m with LeafExn NotFound => LeafExn KeyError | x => x end.
+Proof.
+  induction n as [id | rs ss IH] using node_ind'; intro m; [reflexivity|].
+  rewrite locate_step, render_step_plain.
+  destruct (dict_get_opt rs (uri_path m)); [reflexivity|].
+  destruct (scan ss (uri_path m) (List.length (uri_path m) - 1)) as [[c rest]|] eqn:Hscan; [|reflexivity].
+  destruct (scan_some _ _ _ _ _ _ Hscan) as [j [_ [Hg _]]].
+  pose proof (proj1 (Forall_forall _ _) IH _ (dict_get_opt_In _ _ _ _ Hg)) as IHc. cbn [snd] in IHc. apply IHc.
+Qed.
+Lemma locate_route : forall n m, uri_path_abbrev m = None ->
+  forall t, Route n (uri_path m) t <-> leaf_target (locate n m) = Some t.
+Proof.
+  intros n m Hab t. rewrite (render_route n false m Hab t), locate_render.
+  pose proof (render_msg n false m Hab) as HM.
+  destruct (render false n m) as [r m' | id m' | e]; try reflexivity. subst e. reflexivity.
+Qed.
+Lemma located_default : forall obs root m, uri_path_abbrev m = None ->
+  (forall t, ~ Route root (uri_path m) t) -> located obs root m = RDefault.
+Proof.
+  intros obs root m Hab H. unfold located. rewrite locate_render, (proj1 (render_not_found root false m Hab) H). reflexivity.
+Qed.
+Lemma located_same_as_request : forall obs root m q id seen orig uri, uri_path_abbrev m = None ->
+  request false root m q = RHandled id seen orig uri <-> located obs root m = RHandled id seen orig uri.
+Proof.
+  intros obs root m q id seen orig uri Hab. unfold request, located. rewrite locate_render.
+  pose proof (render_msg root false m Hab) as HM.
+  destruct (render false root m) as [r m' | id' m' | e].
+  - destruct r as [id' d | impl]; [reflexivity|]. split; intro H.
+    + destruct (get_resources_as_linkheader root); [|discriminate]. unfold links_result in H. destruct (wkc_render_get l impl q); discriminate.
+    + destruct obs; discriminate.
+  - reflexivity.
+  - subst e. split; discriminate.
+Qed.
